@@ -13,6 +13,7 @@
 #include <csetjmp>
 #include <cstdlib>
 #include <new>
+#include <optional>
 #include <type_traits>
 #include <utility>
 
@@ -79,6 +80,7 @@ struct World {
 	uint8_t cur = 0, opIdx = 0;
 	const Op* op = nullptr;
 	size_t actPos = 0;
+	const Op* stickyOp = nullptr; size_t stickyPos = 0; unsigned stickyLeft = 0;   // a sticky relative request with y >= 64 repeats (y - 63) times, then the cursor moves on
 	bool quiet = false;        // callbacks take no action (replica construction, copies being destroyed ...)
 	bool hostile = false;      // replica: guards cancel and redirect
 	bool activating = false;   // inside constructor / enter()
@@ -108,6 +110,7 @@ inline void note(uint8_t what, uint8_t a = 0, uint8_t b = 0, uint8_t c = 0) {
 
 using P1_1 = Pay<1, 1>; using P2_2 = Pay<2, 2>; using P3_1 = Pay<3, 1>; using P4_4 = Pay<4, 4>; using P8_8 = Pay<8, 8>;
 using P16_16 = Pay<16, 16>; using P24_8 = Pay<24, 8>; using P32_32 = Pay<32, 32>; using P12_4 = Pay<12, 4>; using P5_1 = Pay<5, 1>;
+using P320_64 = Pay<320, 64>;   // larger than 255 bytes (byte counts do not fit the library's 8-bit index types) and over-aligned beyond max_align_t
 
 // ---- zoo configuration --------------------------------------------------------------------------
 template <int CFG> struct ZCfg;
@@ -177,7 +180,10 @@ VF_ZCFG_END
 VF_ZCFG_BEGIN(17, 7, false, true, P5_1, 4, 7, 2)   // odd payload size, headless + manual + reference context
 	static constexpr int inj(int i) { return i == 2 ? 2 : 0; } static constexpr int headInj() { return 0; } static constexpr bool bare(int) { return false; }
 VF_ZCFG_END
-static constexpr int ZOO_COUNT = 18;
+VF_ZCFG_BEGIN(18, 5, true, false, P320_64, 12, 3, 1)   // 320-byte / 64-aligned payload, a substitution limit between the small ones and 255
+	static constexpr int inj(int i) { return i == 4 ? 1 : 0; } static constexpr int headInj() { return 0; } static constexpr bool bare(int) { return false; }
+VF_ZCFG_END
+static constexpr int ZOO_COUNT = 19;
 
 // ---- config type builder --------------------------------------------------------------------------
 template <class C, int K> struct WithCtx;
@@ -271,12 +277,23 @@ struct Inj<CFG, I, J, false> : Zoo<CFG>::FSM::State {
 };
 #undef VF_VIRT
 #define VF_VIRT virtual
+// ... and handle events with ordinary (non-template) overloads per event type next to the inherited defaults (the documented idiom for
+// machines that react to more than one event type)
+#define VF_CB_EVENTS_NT(SID, WHO, EVT) \
+	void preReact(const EVT& e, FullControl& c) { Runner<CFG>::cb(c, SID, M_PRE_REACT, WHO, thisOk(), &e, ++seen); } \
+	void react(const EVT& e, FullControl& c) { Runner<CFG>::cb(c, SID, M_REACT, WHO, thisOk(), &e, ++seen); } \
+	void postReact(const EVT& e, FullControl& c) { Runner<CFG>::cb(c, SID, M_POST_REACT, WHO, thisOk(), &e, ++seen); } \
+	void query(EVT& e, ConstControl& c) const { Runner<CFG>::cb(c, SID, M_QUERY, WHO, thisOk(), &e, ++seen); } \
+	void query(const EVT& e, ConstControl& c) const { Runner<CFG>::cb(c, SID, M_QUERY, WHO, thisOk(), &e, ++seen); }
 template <int CFG, int I, int J>
 struct Inj<CFG, I, J, true> : Zoo<CFG>::FSM::State {
 	VF_FSM_TYPES(CFG)
+	using Base = typename Zoo<CFG>::FSM::State;
+	using Base::preReact; using Base::react; using Base::postReact; using Base::query;
 	bool thisOk() const;
 	VF_LOCAL
-	VF_CALLBACKS(I, J)
+	VF_CB_ENTRY_GUARD(I, J) VF_CB_ENTER(I, J) VF_CB_REENTER(I, J) VF_CB_PRE_UPDATE(I, J) VF_CB_UPDATE(I, J) VF_CB_POST_UPDATE(I, J) VF_CB_EXIT_GUARD(I, J) VF_CB_EXIT(I, J)
+	VF_CB_EVENTS_NT(I, J, EvA) VF_CB_EVENTS_NT(I, J, EvB)
 	virtual ~Inj() = default;
 };
 #undef VF_VIRT
@@ -672,6 +689,10 @@ struct Runner {
 			if (!W.op || W.actPos >= W.op->acts.size()) break;
 			const Action act = W.op->acts[W.actPos];
 			if (!(act.kind & ACT_STICKY)) ++W.actPos;
+			else if (((act.kind & ACT_KIND_MASK) % ACT_COUNT) == ACT_REQUEST_REL && act.y >= 64) {
+				if (W.stickyOp != W.op || W.stickyPos != W.actPos) { W.stickyOp = W.op; W.stickyPos = W.actPos; W.stickyLeft = unsigned(act.y) - 63u; }
+				if (--W.stickyLeft == 0) { ++W.actPos; W.stickyOp = nullptr; }
+			}
 			perform(control, state, method, act);
 			if (!(act.kind & ACT_CHAIN)) break;
 		}
@@ -819,6 +840,12 @@ struct Runner {
 		const uint8_t declaredFill = fill;   // recorded in the trace; the override (fill-independence shadow runs) must not show up there
 		if (W.opts.fillOverride >= 0) fill = static_cast<uint8_t>(W.opts.fillOverride);
 		memset(s.store, fill, sizeof s.store);
+		if (W.opts.fillOverride >= 256) {
+			// word patterns: the storage spells the little-endian 32-bit integer 1 or 2 at one of the four byte phases (small enumerator values are
+			// what a forgotten initialiser of an enum / counter / flag member would have to contain to be taken for real data)
+			const unsigned id = unsigned(W.opts.fillOverride - 256) % 8u, phase = id & 3u, value = 1u + (id >> 2);
+			for (size_t k = 0; k < sizeof s.store; ++k) s.store[k] = ((k + 4u - phase) % 4u == 0) ? static_cast<unsigned char>(value) : 0;
+		}
 		bool lg = (W.cs->flags & 1) != 0;
 		if (W.opts.loggerMode == 1) lg = false;
 		if (W.opts.loggerMode == 2) lg = true;
@@ -917,9 +944,18 @@ struct Runner {
 		if (!HAS_PAY) op.pay = 0;
 		const bool tmplForm = ((op.a / N) & 1) != 0;   // templated form of the call (changeTo<T>(), succeed<T>() ...) instead of the id form
 		Instance& m = *ptr(inst);
-		W.op = actSource; W.actPos = 0;
+		W.op = actSource; W.actPos = 0; W.stickyOp = nullptr;
 		W.quiet = false; W.hostile = false;
 		bool ok = true;
+#ifdef VF_PLANS
+		// plan handles obtained BEFORE the operation and looked at AFTER it: a Plan / CPlan is a live view of the machine's plan, not a snapshot
+		const bool holdViews = code == OP_UPDATE || code == OP_REACT || code == OP_IMMEDIATE || code == OP_PLAN_APPEND || code == OP_PLAN_CLEAR || code == OP_PLAN_REMOVE ||
+			code == OP_SUCCEED || code == OP_FAIL || code == OP_CHANGE || code == OP_QUERY;
+		const Instance& heldFrom = m;
+		std::optional<decltype(heldFrom.plan())> heldC;
+		std::optional<decltype(m.plan())> heldP;
+		if (holdViews) { heldC.emplace(heldFrom.plan()); heldP.emplace(m.plan()); }
+#endif
 		switch (code) {
 		case OP_UPDATE:
 			begin(inst, code, 0, 0, 0);
@@ -929,7 +965,8 @@ struct Runner {
 			// where the event object lives: on the caller's stack, in the context object (inside the machine when the context is held by value),
 			// or in a state object inside the machine
 			uint8_t place = static_cast<uint8_t>((op.a >> 1) & 3);
-			if (place < 2 || (place == 2 && Z::CTX == 0)) place = 0;
+			if (place == 1 && code == OP_REACT) place = 0;   // 1: query() with a const-qualified event object
+			if (place == 2 && Z::CTX == 0) place = 0;
 			op.a &= 1;
 			begin(inst, code, op.a, op.b, place);
 			EvA la{op.b}; EvB lb{op.b, 7};
@@ -945,6 +982,9 @@ struct Runner {
 			if (code == OP_REACT) {
 				if (op.a == 0) { const EvA& ev = *pa; W.evtAddr = &ev; ok = guarded(inst, [&] { m.react(ev); }); }
 				else { const EvB& ev = *pb; W.evtAddr = &ev; ok = guarded(inst, [&] { m.react(ev); }); }
+			} else if (place == 1) {
+				if (op.a == 0) { const EvA& ev = *pa; W.evtAddr = &ev; ok = guarded(inst, [&] { const Instance& cm = m; cm.query(ev); }); }
+				else { const EvB& ev = *pb; W.evtAddr = &ev; ok = guarded(inst, [&] { const Instance& cm = m; cm.query(ev); }); }
 			} else {
 				if (op.a == 0) { W.evtAddr = pa; ok = guarded(inst, [&] { const Instance& cm = m; cm.query(*pa); }); }
 				else { W.evtAddr = pb; ok = guarded(inst, [&] { const Instance& cm = m; cm.query(*pb); }); }
@@ -1110,6 +1150,17 @@ struct Runner {
 		default: break;
 		}
 		if (ok) end(inst, code, op.a, op.b, op.pay);
+#ifdef VF_PLANS
+		if (ok && holdViews && W.tr->n > 0) {
+			const Ev& fresh = W.tr->ev[W.tr->n - 1];   // the END event carries a fresh snapshot
+			bool trunc = false;
+			const uint32_t k1 = iterate(*heldC, scratch[0], CAP + 1, trunc);
+			const bool c1 = sameSeq(W.tr->pool + fresh.planOff, fresh.planLen, scratch[0], k1) && (static_cast<bool>(*heldC) == ((fresh.planFlags & PF_BOOL) != 0));
+			const uint32_t k2 = iterate(*heldP, scratch[1], CAP + 1, trunc);
+			const bool c2 = sameSeq(W.tr->pool + fresh.planOff, fresh.planLen, scratch[1], k2) && (static_cast<bool>(*heldP) == ((fresh.planFlags & PF_BOOL) != 0));
+			note(NOTE_HELD, c1 && !trunc, c2 && !trunc);
+		}
+#endif
 		W.op = nullptr;
 		lastCode = code;
 		return ok;
@@ -1227,7 +1278,7 @@ struct Runner {
 		W.opIdx = 0xFF;
 		Op ctorOp; ctorOp.acts = cs.ctor;
 		{
-			W.op = &ctorOp; W.actPos = 0; W.quiet = false;
+			W.op = &ctorOp; W.actPos = 0; W.stickyOp = nullptr; W.quiet = false;
 			ok = construct(0, cs.fill);
 			if (ok) { Ev& e = pushEv(EV_END); e.method = OP_RECONSTRUCT; observe(0, e); }
 		}
